@@ -267,8 +267,32 @@ func (w *Worker) tryMerge(fr *Frame, b *ssa.BasicBlock, c *Term, stop *ssa.Basic
 	saveDecIdx, saveDecs := w.decIdx, len(w.decs)
 	w.decIdx++
 	w.decs = append(w.decs, Decision{Merge: true})
-	// No feasibility pre-check: merging with an infeasible arm is sound (the ite guard is then constant under the
-	// path condition); an arm that misbehaves because it is infeasible makes the merge fail and branch() decides.
+	// Both arms must be feasible (an infeasible arm would only bloat the merged terms with dead ite branches).
+	// A bare nondet boolean that the path condition does not mention is trivially free: no query.
+	if !replay && !w.freeBool(c) {
+		infeasible := false
+		w.softGoal = true
+		w.mergeCheck = true
+		if cur, ok := w.evalUnderModel(c); ok {
+			other := c
+			if cur {
+				other = w.tt.Not(c)
+			}
+			if r, _ := w.feasible(other, false); r == Unsat {
+				infeasible = true
+			}
+		} else {
+			r1, _ := w.feasible(c, false)
+			r2, _ := w.feasible(w.tt.Not(c), false)
+			infeasible = r1 == Unsat || r2 == Unsat
+		}
+		w.softGoal = false
+		w.mergeCheck = false
+		if infeasible {
+			w.decIdx, w.decs = saveDecIdx, w.decs[:saveDecs]
+			return nil, false
+		}
+	}
 	outerJ := w.journalOn
 	jstart := len(w.journal)
 	w.journalOn = true
@@ -460,4 +484,55 @@ func (w *Worker) mergeVal(c *Term, a, b Value) (Value, bool) {
 		return nil, b == nil
 	}
 	return nil, false
+}
+
+// freeBool: c is v or not(v) for a boolean variable v that occurs in no path-condition conjunct
+func (w *Worker) freeBool(c *Term) bool {
+	if c.op == ONot {
+		c = c.args[0]
+	}
+	if c.op != OVar {
+		return false
+	}
+	for _, p := range w.pc {
+		if w.mentions(p, c) {
+			return false
+		}
+	}
+	return true
+}
+
+func (w *Worker) mentions(t, v *Term) bool {
+	if !t.sym {
+		return false
+	}
+	if w.varsMemo == nil {
+		w.varsMemo = map[int32]map[int32]bool{}
+	}
+	return w.varsOf(t)[v.id]
+}
+
+func (w *Worker) varsOf(t *Term) map[int32]bool {
+	if s, ok := w.varsMemo[t.id]; ok {
+		return s
+	}
+	s := map[int32]bool{}
+	seen := map[int32]bool{}
+	var rec func(x *Term)
+	rec = func(x *Term) {
+		if !x.sym || seen[x.id] {
+			return
+		}
+		seen[x.id] = true
+		if x.op == OVar {
+			s[x.id] = true
+			return
+		}
+		for i := 0; i < int(x.na); i++ {
+			rec(x.args[i])
+		}
+	}
+	rec(t)
+	w.varsMemo[t.id] = s
+	return s
 }
